@@ -120,10 +120,11 @@ def run(chk):
         i = [k for k, s in enumerate(blk) if s is dn][0]
         before = blk[:i]
         attached = False
+        from . import treefacts
+        wrappers = treefacts.attach_wrappers(ix, 'parser')
         for s in before:
             for x in ast.walk(s):
-                if isinstance(x, ast.Call) and isinstance(x.func, ast.Attribute) and x.func.attr in ('append', 'add') \
-                        and x.args and norm(x.args[0]) == gname:
+                if isinstance(x, ast.Call) and treefacts.is_attach_call(x, wrappers, {gname}):
                     attached = True
         chk.ob('C08-S', 'the cursor enters `%s` only after it was attached' % gname, attached,
                '`%s = %s` is not preceded in its block by attaching `%s` to the result list or the previous cursor' % (
